@@ -136,8 +136,16 @@ def make_ob(tname, opc, op, k, tier):
 
     def pre(**kw):
         bs = [kw["b%d" % i] for i in range(nbytes)]
-        if word and (k + (1 if op == ext_op else 0)) >= 3 and not (bs[0] < 128):
-            return False
+        if word and (k + (1 if op == ext_op else 0)) >= 3:
+            # the folded operand (of the opcode under test, or of the opcode after it when the opcode under test is itself
+            # EXTENDED_ARG) stays below 2^31: beyond that CPython's dis wraps to a negative number and xdis does not
+            tot = 0
+            for b in bs:
+                tot = tot * 256 + b
+            if op == ext_op:
+                tot = tot * 256
+            if not (tot < (1 << 31)):
+                return False
         if pct_d and not (bs[nbytes - 2] <= 15 and bs[nbytes - 1] <= 3):
             return False
         if (not word) and k == 1 and has_arg and not (bs[1] < 128):
